@@ -22,7 +22,7 @@ RULES
 - The change must need something specific to manifest: a particular interleaving, a particular level / modulus size / parameter shape, a multi-step sequence of operations, an unusual but legal input (boundary value, aliasing pattern, reused receiver, negative or huge argument, sparse packing, non-default scale ...), or two cooperating edits that each look fine alone. A change that makes the standard tests or any typical example fail is useless.
 - Keep it small (1-25 changed lines, in 1-3 files, inside the anchor files or code they call). Do not touch *_test.go files, do not add build tags, do not change exported signatures.
 - The change must compile (go build ./... && go vet ./<changed pkgs>) and the existing tests must still pass: at least run `go test -count=1` on every package you changed and on the packages that import them most directly (e.g. ring -> core/rlwe, schemes/bgv, schemes/ckks; core/rlwe -> schemes/..., circuits/..., multiparty/...). If a test fails, pick another change.
-- Write a demonstration as a Go test file placed in the package directory of the worktree (name it zz_demo_{pid.lower()}_test.go, package name = that directory's test package) with one Test function that uses only the public API (or package-internal API if needed), is deterministic (fixed seeds / many trials so that it fails reliably, not 1 run in 10), runs in < 60 s, FAILS with your change and PASSES on the unchanged tree. Verify both: run it with the change applied, then `git stash` (or `git diff > p.diff && git checkout -- . `) and run it without, then re-apply.
+- Write a demonstration as a Go test file placed in the package directory of the worktree (name it zz_demo_{pid.lower()}_test.go, package name = that directory's test package) with one Test function that uses only the public API (or package-internal API if needed), is deterministic (fixed seeds / many trials so that it fails reliably, not 1 run in 10), runs in < 60 s, FAILS with your change and PASSES on the unchanged tree. Verify both: run it with the change applied, then `git diff > p.diff && git checkout -- .` (never `git stash`: the stash list is shared with the main repository) and run it without, then re-apply.
 - Deliverables, written to {out}/ (create it):
     patch.diff   = `git -C {wt} diff` of the change ONLY (not the demo file; make sure the demo is untracked or excluded)
     demo_test.go = the demonstration test file, with a header comment saying in which package directory (relative to the repo root) it must be placed
